@@ -233,6 +233,9 @@ class LocalAnomalyScore(BaseLocalAnomalyScore):
         self :
             Reference to self.
         """
+        # The copy of the cost is renewed here such that changes to the parameters of
+        # `cost` after construction, e.g. by `set_params(cost__param=...)`, reach it.
+        self._any_subset_cost = self.cost.clone()
         self._interval_cost.fit(X)
         return self
 
